@@ -199,8 +199,8 @@ CHECKS = {
          "reachable_from_inv / every_frame_from: the invariants hold in every state reachable from the two states State.Subcommand "
          "starts the program in, and every frame emitted on the way was computed without a panic.",
     note="PARTIAL in one respect: the single refinement theorem to an abstract keymap over fully-known threads (window coverage after "
-         "settling) is replaced by the invariant + per-key theorems + correspondence. c/r/a/o/p/b need pub's concrete types and are "
-         "no-ops on the synthetic items.",
+         "settling) is replaced by the invariant + per-key theorems + correspondence. c/r/a/o/p/b are exercised on real pub.Post / "
+         "Actor / Activity values built from embedded JSON (batch c07-pub), including the link the media hook receives.",
     technique="Coq proof (inductive invariant over a transition system with pending tasks; per-key lemmas) + differential correspondence on key histories",
     design="5/C07"),
  "C08": dict(
